@@ -1,6 +1,6 @@
 (* C13 - validation leaves the request readable; defaults are added exactly once. *)
 From KV Require Import Model.Base Model.Json Model.Schema Model.Request Model.Lookup Model.ParamCodec Model.Defaults
-     Spec.ParamSpec Proofs.C05Proofs Proofs.C13Proofs Proofs.C13Inject.
+     Spec.ParamSpec Proofs.C05Proofs Proofs.C05Object Proofs.C13Proofs Proofs.C13Inject.
 Local Open Scope list_scope.
 
 (* whatever the security requirements do (undeclared schemes, callbacks that read the body, any
@@ -119,6 +119,34 @@ Theorem C13_array_default_reads_back :
     decode_param pi64 pi32 pf p (populate sprint p frag0 (JArr l)) = DRes (PA vs) true None.
 Proof. exact populated_array_reads_back. Qed.
 Print Assumptions C13_array_default_reads_back.
+(* ... and object defaults (every style but deepObject, whose decoder has its own model: Model/DeepObject.v):
+   the members' texts, as name,value pairs / name=value pairs / exploded into the query (the population
+   wrote fmt.Sprint of the map, and nothing at all for headers and cookies, until repaired in /repo d5e631d) *)
+Theorem C13_object_default_reads_back :
+  forall pi64 pi32 pf sprint p l decl ms,
+    pd_in p <> LPath ->
+    allowed_cell (pd_in p) (eff_style p) (eff_explode p) = true ->
+    String.eqb (eff_style p) "deepObject" = false ->
+    defined_cell p (SObj (member_texts sprint l)) = true ->
+    shape_of (pd_schema p) = ShObj decl None ->
+    l <> [] -> nodup_s (map fst (member_texts sprint l)) = true -> nodup_s (map fst decl) = true ->
+    Forall (fun t => t <> ""%string) (flat (member_texts sprint l)) ->
+    (pd_in p = LQuery /\ eff_explode p = true \/ clean (obj_sep (pd_in p) (eff_style p) (eff_explode p)) (flat (member_texts sprint l))) ->
+    (eq_form (pd_in p) (eff_explode p) = true -> clean "="%char (flat (member_texts sprint l))) ->
+    members pi64 pi32 pf (member_texts sprint l) decl None = Some ms -> Forall (fun kv => snd kv <> PNil) ms ->
+    exists m, decode_param pi64 pi32 pf p (populate sprint p frag0 (JObj l)) = DRes (PO m) true None /\
+              forall k, assoc k m = assoc k ms.
+Proof. exact populated_object_reads_back. Qed.
+Print Assumptions C13_object_default_reads_back.
+Example C13_object_default_example :
+  let intS := Sch (mkCore (Some ["integer"]) [] false false false false "" false false false None None None 0 None "" 0 None [] 0 None None) None [] [] [] None [] None in
+  let objS := Sch (mkCore (Some ["object"]) [] false false false false "" false false false None None None 0 None "" 0 None [] 0 None None) None [] [] [] None [("a", intS)] None in
+  let sprint v := match v with JNum _ => "1" | _ => "?" end in
+  let pi s := if String.eqb s "1" then Some 1%Z else None in
+  decode_param pi pi (fun _ => None) (mkPDef LQuery "o" "" None false false objS) (populate sprint (mkPDef LQuery "o" "" None false false objS) frag0 (JObj [("a", JNum 1)]))
+  = DRes (PO [("a", PI64 1)]) true None /\
+  populate sprint (mkPDef LHeader "X-O" "" None false false objS) frag0 (JObj [("a", JNum 1)]) = mkFrag [] [] [("X-O", ["a,1"])] [].
+Proof. vm_compute. split; reflexivity. Qed.
 (* the former refuted witness, now on the side of the property *)
 Example C13_array_default_example :
   let intS := Sch (mkCore (Some ["integer"]) [] false false false false "" false false false None None None 0 None "" 0 None [] 0 None None) None [] [] [] None [] None in
